@@ -58,6 +58,10 @@ def generate(rng, tier):
         for jn, jd in [(20, 1), (50, 1), (799, 8)]:
             out.append(case(jn, jd, 10**6, [3]))
             out.append(case(jn, jd, 10**6, [1000, 0]))
+    # the jitter flag as the builders read it (fractions of a percent included): per-value admissibility on the built rate function
+    for _ in range({"quick": 40, "thorough": 500, "search": 150}[tier]):
+        jn, jd = rng.choice(JITTERS + [(1, 4), (1, 2), (9, 10), (3, 4)])
+        out.append("bjitter %s %d %d %d %d" % (rng.choice(["constant", "staged"]), jn, jd, rng.choice([200, 1000]), rng.choice([10, 100, 1000, 12345])))
     # end to end: the composed pipeline of a constant trigger (ParseRate -> WithJitter -> NewDistribution) over whole cycles
     for _ in range({"quick": 60, "thorough": 800, "search": 200}[tier]):
         out.append(_plan.pipeline_case(rng, cycles=rng.choice([10, 100, 400, 2000])))
@@ -81,6 +85,8 @@ def nontrivial_key(rec):
         return rec["case"] if "jitter=0" in rec["case"] else None
     if a[0] == "pipeline":
         return rec["case"] if a[2] != "0" else None
+    if a[0] == "bjitter":
+        return rec["case"] if a[2] != "0" else None
     if a[1] != "0" and int(a[3]) >= 200 and any(x not in ("0", "-") for x in a[4].split(",")):
         return rec["case"]
     return None
@@ -93,8 +99,8 @@ def distribution(recs):
         if a[0] == "plan":
             d["config_files"] = d.get("config_files", 0) + 1
             continue
-        if a[0] == "pipeline":
-            d["pipelines"] = d.get("pipelines", 0) + 1
+        if a[0] in ("pipeline", "bjitter"):
+            d[a[0]] = d.get(a[0], 0) + 1
             continue
         d["ticks_total"] += int(a[3])
         d["zero_jitter"] += a[1] == "0"
